@@ -338,3 +338,38 @@ Proof.
 Qed.
 
 Print Assumptions semver_accepts_iff.
+
+(* ---- what is printed is accepted again: parsing is idempotent through the printer ---- *)
+Lemma member_split s : L semver_spec (map A s) -> exists V r, s = V ++ r /\ (V = [] \/ V = [118]) /\ LS sv_rest_r r.
+Proof.
+  intros H. apply (lang_incl _ _ sv_in_ka) in H. change (LS sv_in_r s) in H. unfold sv_in_r in H.
+  apply LS_dot_inv in H. destruct H as [V [r [-> [HV H]]]]. exists V, r. split; [reflexivity|]. split; [|exact H].
+  apply LS_pls_inv in HV. destruct HV as [HV|HV]; [left; apply LS_one_inv, HV|right; apply vee_inv, HV].
+Qed.
+
+Lemma rest_starts_with_digit r : LS sv_rest_r r -> exists c t, r = c :: t /\ is_ascii_digit c = true.
+Proof.
+  unfold sv_rest_r. intros H. apply LS_dot_inv in H. destruct H as [a [r1 [-> [Ha _]]]]. apply num_inv in Ha. pose proof (canonical_digits a Ha) as D.
+  destruct a as [|c t]; [discriminate Ha|]. exists c, (t ++ r1). split; [reflexivity|]. unfold all_b in D. cbn [forallb] in D. apply andb_true_iff in D. tauto.
+Qed.
+
+Lemma strip_v_digit c t : is_ascii_digit c = true -> strip_v (c :: t) = c :: t.
+Proof.
+  intros H. cbn [strip_v]. unfold is_ascii_digit in H. apply andb_true_iff in H. destruct H as [_ H]. apply N.leb_le in H. destruct (N.eqb_spec c 118); [lia|reflexivity].
+Qed.
+
+Theorem parse_without_v s v : semver_parse s = Some v -> semver_parse (strip_v s) = Some v.
+Proof.
+  unfold semver_parse. destruct (rx_accepts semver_src (map A s)) eqn:R; [|discriminate]. intros H.
+  assert (M : L semver_spec (map A s)) by (apply semver_regex_lang, rx_accepts_lang, R).
+  destruct (member_split s M) as [V [r [-> [HV Hr]]]]. destruct (rest_starts_with_digit r Hr) as [c [t [-> Hc]]].
+  assert (S1 : strip_v (V ++ c :: t) = c :: t) by (destruct HV as [-> | ->]; [apply strip_v_digit, Hc|reflexivity]).
+  rewrite S1.
+  assert (R2 : rx_accepts semver_src (map A (c :: t)) = true) by (apply rx_accepts_lang, semver_regex_lang, (lang_incl _ _ sv_rest_ka), Hr).
+  rewrite R2. revert H. unfold semver_extract. rewrite S1, (strip_v_digit c t Hc). trivial.
+Qed.
+
+Theorem semver_reparse s v : semver_parse s = Some v -> semver_parse (semver_print v) = Some v.
+Proof. intros H. rewrite (parse_lossless s v H). apply parse_without_v, H. Qed.
+
+Print Assumptions semver_reparse.
